@@ -193,7 +193,7 @@ OBLIGATIONS = [
                 "peer ACKs every block or NAKs block 0 / 1: line order ENQ, EOT, block, ACK per block; success iff every block was ACKed; "
                 "the peer reassembles the identical message",
          outside="contention (both sides ENQ), T1-T4 timeouts and retries, more than 2 blocks"),
-    dict(name="receive_direction", fn="receive_direction", timeout={"quick": 900, "thorough": 2400},
+    dict(name="receive_direction", fn="receive_direction", timeout={"quick": 450, "thorough": 2400},
          parts={"quick": ["len(chunks) <= 1 and " + c + " and " + _HA
                           for c in ["cpos == -1"] + ["cpos == %d" % k for k in range(1, 15)]]
                          + ["len(chunks) == 2 and chunks[0] == %d and cpos == -1 and %s" % (k, _HA) for k in (1, 2, 11, 12)],
